@@ -28,7 +28,7 @@ META = dict(
                '_proc_dep_pair family expansion', 'task_qualifiers',
                '_set_output_opt'],
     bounds=['7 qualifiers x {all, any} x {?, none} x 4 family shapes x '
-            '{no offset, [-P1]} x {alone, & a, | a}; right-hand families: 4 '
+            '{no offset, [-P1]} x {alone, & a, | a, | BAM:succeed-all, | BAM:fail-any?, (FAM.. | a) & (BAM[-P1]:start-any | a)}; right-hand families: 4 '
             'shapes x {plain, ?}'],
     stubs=['none'],
     assumptions=[],
@@ -41,7 +41,8 @@ QUALS = {'succeed': ['succeeded'], 'fail': ['failed'],
          'submit': ['submitted'], 'submit-fail': ['submit-failed'],
          'expire': ['expired']}
 FAMS = [['m1'], ['m1', 'm2'], ['m1', 'm2', 'm3'], ['m1', 'm2', 'n1', 'n2']]
-MIX = [None, '&', '|']
+MIX = [None, '&', '|', '|B-all', '|B-any', '&(B|a)']
+BAM = ['b1', 'b2']
 
 
 def lhs_cases():
@@ -52,6 +53,37 @@ def lhs_cases():
                     for off in ('', '[-P1]'):
                         for mix in MIX:
                             yield q, mode, opt, fi, off, mix
+
+
+def _text(q, mode, opt, off, mix):
+    text = f'FAM{off}:{q}-{mode}{opt}'
+    if mix in ('&', '|'):
+        text += f' {mix} a'
+    elif mix == '|B-all':
+        text += ' | BAM:succeed-all'
+    elif mix == '|B-any':
+        text += ' | BAM:fail-any?'
+    elif mix == '&(B|a)':
+        text = f'({text} | a) & (BAM[-P1]:start-any | a)'
+    return text + ' => x'
+
+
+def _want(q, mode, members, off, mix, env):
+    import z3
+    want = expected(q, mode, members, off, env)
+    a = to_z3('a:succeeded', env)
+    if mix == '&':
+        return z3.And(want, a)
+    if mix == '|':
+        return z3.Or(want, a)
+    if mix == '|B-all':
+        return z3.Or(want, expected('succeed', 'all', BAM, '', env))
+    if mix == '|B-any':
+        return z3.Or(want, expected('fail', 'any', BAM, '', env))
+    if mix == '&(B|a)':
+        return z3.And(z3.Or(want, a), z3.Or(
+            expected('start', 'any', BAM, '[-P1]', env), a))
+    return want
 
 
 def expected(q, mode, members, off, env):
@@ -74,11 +106,8 @@ def smt_lhs(slc):
         q, mode, opt, fi, off, mix = case
         if q != slc.get('q', q):
             continue
-        fam = {'FAM': list(FAMS[fi])}
-        text = f'FAM{off}:{q}-{mode}{opt}'
-        if mix:
-            text += f' {mix} a'
-        text += ' => x'
+        fam = {'FAM': list(FAMS[fi]), 'BAM': list(BAM)}
+        text = _text(q, mode, opt, off, mix)
         got = parse(text, fam)
         n += 1
         if got is None:
@@ -93,11 +122,7 @@ def smt_lhs(slc):
                               programs=n)
         trig, optmap = got
         env = {}
-        want = expected(q, mode, FAMS[fi], off, env)
-        if mix == '&':
-            want = z3.And(want, to_z3('a:succeeded', env))
-        elif mix == '|':
-            want = z3.Or(want, to_z3('a:succeeded', env))
+        want = _want(q, mode, FAMS[fi], off, mix, env)
         r, _ = ses.check(formula(trig['x'], env) != want, label=text)
         if r != 'unsat':
             return ses.result(
@@ -119,30 +144,24 @@ def smt_lhs(slc):
 
 
 def replay_lhs(q, mode, opt, fi, off, mix) -> bool:
-    fam = {'FAM': list(FAMS[fi])}
-    text = f'FAM{off}:{q}-{mode}{opt}' + (f' {mix} a' if mix else '') + ' => x'
-    got = parse(text, fam)
+    """Truth-table check (z3 only used as an evaluator of ground formulas)."""
+    import z3
+    fam = {'FAM': list(FAMS[fi]), 'BAM': list(BAM)}
+    got = parse(_text(q, mode, opt, off, mix), fam)
     if got is None:
         return (opt == '' and q in ('expire', 'submit-fail')) or (
             opt == '?' and q == 'finish')
     trig, optmap = got
-    atoms = [f'{m}{off}:{o}' for m in FAMS[fi] for o in QUALS[q]] + [
-        'a:succeeded']
-
-    def norm(s):
-        return (s.replace('[-P1]', '_P1').replace(':', '_').replace('-', '_'))
-    for vals in itertools.product((False, True), repeat=len(atoms)):
-        env = {norm(k): v for k, v in zip(atoms, vals)}
-        got_v = all(eval(norm(e).replace('&', ' and ').replace('|', ' or '),
-                         {}, env) for e in trig['x'])
-        per = [any(env[norm(f'{m}{off}:{o}')] for o in QUALS[q])
-               for m in FAMS[fi]]
-        want = all(per) if mode == 'all' else any(per)
-        if mix == '&':
-            want = want and env['a_succeeded']
-        elif mix == '|':
-            want = want or env['a_succeeded']
-        if got_v != want:
+    env = {}
+    want = _want(q, mode, FAMS[fi], off, mix, env)
+    have = formula(trig['x'], env)
+    names = sorted(env)
+    if len(names) > 14:
+        return True
+    for vals in itertools.product((False, True), repeat=len(names)):
+        sub = [(env[k], z3.BoolVal(v)) for k, v in zip(names, vals)]
+        if z3.is_true(z3.simplify(z3.substitute(want, *sub))) != z3.is_true(
+                z3.simplify(z3.substitute(have, *sub))):
             return False
     for m in FAMS[fi]:
         for o in QUALS[q]:
